@@ -291,11 +291,11 @@ static Csr<double> int_dd(size_t n, double dens, Rng &r, bool symmetric) {     /
 }
 
 struct Input { Csr<double> A; std::string family; bool integer = false; int block = 1; };
-static Input gen_input(Rng &r, int kind, bool big) {
-    Input in; int nmax = big ? 2500 : 400;
+static Input gen_input(Rng &r, int kind, bool big, bool huge = false) {
+    Input in; int nmax = huge ? 12000 : big ? 2500 : 400; if (huge) big = true;
     switch (kind) {
         case 0: { vf::GridSpec g; in.A = vf::model_problem(r, 60, nmax, &g); in.family = "G1-model"; break; }
-        case 1: { vf::GridSpec g; int s = (int)r.range(6, big ? 40 : 18); g.nx = s; g.ny = (int)r.range(5, s); g.contrast = r.logu(1, 1e3); g.aniso = r.logu(1e-3, 1); g.nine = r.coin(0.3); in.A = vf::grid_diffusion(g, r); in.family = "G1-hard"; break; }
+        case 1: { vf::GridSpec g; int s = (int)r.range(6, huge ? 100 : big ? 40 : 18); g.nx = s; g.ny = (int)r.range(5, s); g.contrast = r.logu(1, 1e3); g.aniso = r.logu(1e-3, 1); g.nine = r.coin(0.3); in.A = vf::grid_diffusion(g, r); in.family = "G1-hard"; break; }
         case 2: in.A = vf::connected_graph_laplacian((size_t)r.range(30, nmax / 2), r.uni(2.5, 7), r, r.coin(), r.coin(0.3)); in.family = "G2-graph"; break;
         case 3: in.A = vf::convdiff((int)r.range(6, big ? 40 : 18), (int)r.range(5, big ? 40 : 18), r.logu(0.1, 50), r, false); in.family = "G3-convdiff"; break;
         case 4: in.A = vf::convdiff((int)r.range(6, big ? 40 : 18), (int)r.range(5, 18), r.logu(0.1, 50), r, true); in.family = "G3-struct-nonsym"; break;
@@ -319,11 +319,11 @@ static std::string pick_relax(Rng &r, const Input &in) {
 
 //---------------------------------------------------------------------------
 static void sub_hier() {
-    long N = vf::tier(240, 1500), stride = vf::opt_int("stride", 1);
+    long N = vf::tier(240, 4000), stride = vf::opt_int("stride", 1);
     for (long idx = 0; idx < N; ++idx) {
         if (!vf::selected("hier", idx) || idx % stride) continue;
         Rng r(vf::case_seed("hier", idx)); int kind = (int)(idx % NKINDS), ci = (int)((idx / NKINDS) % 4);
-        Input in = gen_input(r, kind, idx % 7 == 6); size_t n = in.A.n;
+        Input in = gen_input(r, kind, idx % 7 == 6, vf::thorough() && idx % 50 == 48); size_t n = in.A.n;
         Cfg cfg = draw(r, COARS[ci], pick_relax(r, in), n, idx >= 40, in.block);
         bool exact = in.integer && cfg.coars == "aggregation" && cfg.nullcols == 0;
         if (exact) cfg.set_alpha(r.pick(std::vector<double>{1.0, 2.0, 4.0}));
@@ -342,7 +342,7 @@ static void sub_hier() {
 //---------------------------------------------------------------------------
 // synthetic transfer operators through the replaying policy: integer data, all four coarse_operator implementations exact
 static void sub_synthetic() {
-    long N = vf::tier(160, 800), stride = vf::opt_int("stride", 1);
+    long N = vf::tier(160, 2000), stride = vf::opt_int("stride", 1);
     for (long idx = 0; idx < N; ++idx) {
         if (!vf::selected("synthetic", idx) || idx % stride) continue;
         Rng r(vf::case_seed("synthetic", idx)); int ci = (int)(idx % 4);
@@ -386,7 +386,7 @@ static Csr<double> mutate(const Csr<double> &A, int how, Rng &r, std::string &na
 }
 
 static void sub_rebuild() {
-    long N = vf::tier(128, 640), stride = vf::opt_int("stride", 1);
+    long N = vf::tier(128, 1600), stride = vf::opt_int("stride", 1);
     for (long idx = 0; idx < N; ++idx) {
         if (!vf::selected("rebuild", idx) || idx % stride) continue;
         Rng r(vf::case_seed("rebuild", idx)); int ci = (int)(idx % 4), kind = (int)((idx / 4) % 7); if (kind == 5) kind = 7;   // all families but kron (block_size) keep it simple: 0,1,2,3,4,6,7
@@ -475,7 +475,7 @@ static void run_degenerate(const char *sub, long idx, const Csr<double> &A, cons
 }
 
 static void sub_degenerate() {
-    long N = vf::tier(64, 480), stride = vf::opt_int("stride", 1);
+    long N = vf::tier(64, 960), stride = vf::opt_int("stride", 1);
     for (long idx = 0; idx < N; ++idx) {
         if (!vf::selected("degenerate", idx) || idx % stride) continue;
         Rng r(vf::case_seed("degenerate", idx)); int ci = (int)(idx % 4), kind = (int)((idx / 4) % 8); Csr<double> A; std::string fam; bool integer = true;
